@@ -216,11 +216,29 @@ ApiScript(c) ==
   \o <<OpGet("s2")>>
 
 -----------------------------------------------------------------------------
+(* Family "lits" (C01/C02/C03): every parameter literal type (non-finite floats included)  *)
+(* as a parameter, referenced alone and inside a multi-chunk pattern, and as a direct       *)
+(* constructor argument, field value and call argument.                                    *)
+LitKindsAll == <<ALit("int", "-3"), ALit("uint64", "18446744073709551615"), ALit("float", "0.25"), ALit("float", "+Inf"),
+                 ALit("float", "-Inf"), ALit("float", "NaN"), ALit("bool", "false"), ALit("null", ""), AStr("hello \"q\" \\ w"),
+                 ALit("int", "9223372036854775807"), ALit("float", "1000000")>>
+LitCfg(i, multi) ==
+  [EmptyCfg EXCEPT !.meta = BaseMeta,
+     !.params = ("p1" :> LitKindsAll[i] @@ "p2" :> ARef("p1")
+                 @@ "p3" :> (IF multi THEN APat(<<CText("<"), CRef("p1"), CText(">")>>) ELSE AStr("x"))),
+     !.services = ("s1" :> [CtorSvc("fx.NewA", <<LitKindsAll[i], ARef("p1"), ARef("p3")>>) EXCEPT
+                              !.fields = <<Field("F1", LitKindsAll[i])>>,
+                              !.calls = <<Call("SetX", <<LitKindsAll[i], ARef("p2")>>, FALSE)>>])]
+LitCfgs == {LitCfg(i, m) : i \in 1..Len(LitKindsAll), m \in BOOLEAN}
+LitScript == <<OpGetParam("p1"), OpGetParam("p2"), OpGetParam("p3"), OpGet("s1")>>
+
+-----------------------------------------------------------------------------
 Configs ==
   CASE Family = "build"  -> {BuildCfg(v) : v \in {x \in PairVectors : LegalVec(x) /\ Determined(x)}}
     [] Family = "scope2" -> ScopeCfgs({"s1", "s2"})
     [] Family = "scope3" -> ScopeCfgs({"s1", "s2", "s3"})
     [] Family = "todo"   -> TodoCfgs
+    [] Family = "lits"   -> LitCfgs
     [] Family \in {"api", "apiq"} -> ApiCfgs
     [] OTHER -> {}
 
@@ -229,9 +247,10 @@ FileSets ==
   CASE Family \in {"tags", "tagsq"} -> {f \in TagFileSets : OutputAccepted(MergeAll(f), NoFl)}
     [] OTHER -> {<<c>> : c \in Configs}
 
-Scripted == Family \in {"build", "tags", "tagsq", "api", "apiq"}
+Scripted == Family \in {"build", "tags", "tagsq", "api", "apiq", "lits"}
 Script == IF Family = "build" THEN BuildScript
           ELSE IF Family \in {"api", "apiq"} THEN (IF APIAccepted(cfg0) THEN ApiScript(cfg0) ELSE <<>>)
+          ELSE IF Family = "lits" THEN LitScript
           ELSE TagScript
 Alphabet(c) ==
   CASE Family = "scope2" -> ScopeOps({"s1", "s2"})
